@@ -86,6 +86,7 @@ const (
 	c20OpNamespace            // create the namespace, or (if it exists) toggle its weight
 	c20OpDeliver              // a = 0 compact <- source, 1 agent <- compact; b = 0 one page of one event, 1 everything pending
 	c20OpReload               // a = 0 compact, 1 agent; b = cut mode
+	c20OpResave               // a = 0 metric / 1 group / 2 namespace, b = index; the entity is saved again with identical content: only version and update time move
 )
 
 const (
@@ -145,6 +146,14 @@ func c20BuildOps() []c20Op {
 			ops = append(ops, c20Op{c20OpReload, t, c20CutBoundary + k - 1, fmt.Sprintf("save-reload-%s(ends-after-chunk-%d)", tn, k), 0})
 		}
 	}
+	// "save again unchanged" (appended last so that the indexes of the older operations - replay files - keep their meaning)
+	for m := 0; m < c20MaxMetrics; m++ {
+		ops = append(ops, c20Op{c20OpResave, 0, m, fmt.Sprintf("resave-metric-unchanged(%d)", m+1), 0})
+	}
+	for g := 0; g < c20MaxGroups; g++ {
+		ops = append(ops, c20Op{c20OpResave, 1, g, fmt.Sprintf("resave-group-unchanged(%d)", g+1), 0})
+	}
+	ops = append(ops, c20Op{c20OpResave, 2, 0, "resave-namespace-unchanged", 0})
 	for i := range ops {
 		ops[i].index = i
 	}
@@ -176,12 +185,27 @@ type c20Entity struct {
 	invis    bool // metric: description "d", update time+1 (dropped by compaction)
 	disabled bool // group
 	heavy    bool // group / namespace: weight 2 instead of 1
+	late     bool // update time of the latest save is +2 (toggled by "save again unchanged": the content is byte-identical, version and update time move)
 	ver      int64
 	hist     []c20SrcVersion
 }
 
-func (e *c20Entity) compactContent() string {
-	return fmt.Sprintf("%s|%v|%v|%v", e.name, e.vis, e.disabled, e.heavy)
+// compactContent is what a compact journal keeps of the entity. Groups and namespaces are kept verbatim, update time
+// included (compactJournalEvent returns them untouched, and GetGroup/GetNamespace show it); of a metric the update
+// time is cleared, so a metric saved again unchanged compacts to the same event (keepsTime=false).
+func (e *c20Entity) compactContent(keepsTime bool) string {
+	return fmt.Sprintf("%s|%v|%v|%v|%v", e.name, e.vis, e.disabled, e.heavy, e.late && keepsTime)
+}
+
+func (e *c20Entity) updateTime(metric bool) uint32 {
+	t := uint32(c20UpdateTime)
+	if e.invis && metric {
+		t++
+	}
+	if e.late {
+		t += 2
+	}
+	return t
 }
 
 // acceptable: v is the version of a source event of this entity whose compact content equals the
@@ -295,10 +319,7 @@ func c20MetricEvent(id int32, e *c20Entity, ver int64) tlmetadata.Event {
 	if err != nil {
 		panic(err)
 	}
-	ev.UpdateTime = c20UpdateTime
-	if e.invis {
-		ev.UpdateTime++
-	}
+	ev.UpdateTime = e.updateTime(true)
 	return ev
 }
 
@@ -314,7 +335,7 @@ func c20GroupEvent(id int32, e *c20Entity, ver int64) tlmetadata.Event {
 	if err != nil {
 		panic(err)
 	}
-	ev.UpdateTime = c20UpdateTime
+	ev.UpdateTime = e.updateTime(false)
 	return ev
 }
 
@@ -330,7 +351,7 @@ func c20NamespaceEvent(e *c20Entity, ver int64) tlmetadata.Event {
 	if err != nil {
 		panic(err)
 	}
-	ev.UpdateTime = c20UpdateTime
+	ev.UpdateTime = e.updateTime(false)
 	return ev
 }
 
@@ -339,8 +360,9 @@ func c20NamespaceEvent(e *c20Entity, ver int64) tlmetadata.Event {
 func (w *c20World) commit(e *c20Entity, mk func(ver int64) tlmetadata.Event) {
 	w.ver++
 	e.ver = w.ver
-	e.hist = append(e.hist, c20SrcVersion{ver: w.ver, compact: e.compactContent()})
-	w.src.addEventLocked(nil, mk(w.ver))
+	ev := mk(w.ver)
+	e.hist = append(e.hist, c20SrcVersion{ver: w.ver, compact: e.compactContent(ev.EventType != format.MetricEvent)})
+	w.src.addEventLocked(nil, ev)
 	w.src.finishUpdateLocked()
 }
 
@@ -367,6 +389,17 @@ func (w *c20World) replicaLags(typ int32, id int64, ver int64) bool {
 	key := journalEventID{typ: typ, id: id}
 	for _, j := range []*JournalFast{w.cmp, w.agt} {
 		if e, ok := j.journal[key]; ok && e.Version != ver {
+			return true
+		}
+	}
+	return false
+}
+
+// replicaHolds: some replica already stores an event of the entity (an unchanged re-save then meets its own earlier save there).
+func (w *c20World) replicaHolds(typ int32, id int64) bool {
+	key := journalEventID{typ: typ, id: id}
+	for _, j := range []*JournalFast{w.cmp, w.agt} {
+		if _, ok := j.journal[key]; ok {
 			return true
 		}
 	}
@@ -497,6 +530,14 @@ func (w *c20World) enabled(op c20Op) bool {
 		return op.a < w.nGroups && w.groupNameFree(c20GroupNames[op.b])
 	case c20OpToggleGroup:
 		return op.a < w.nGroups
+	case c20OpResave:
+		switch op.a {
+		case 0:
+			return op.b < w.nMetrics
+		case 1:
+			return op.b < w.nGroups
+		}
+		return w.ns.exists
 	case c20OpDeliver:
 		p := w.pending(w.cmp, w.src)
 		if op.a == 1 {
@@ -532,7 +573,7 @@ func (w *c20World) enabled(op c20Op) bool {
 // apply performs one enabled operation. The result says whether the operation conflicts with the
 // state it is applied to (the rule for non-trivial transitions; a function of state and operation).
 func (w *c20World) apply(op c20Op) (conflict bool) {
-	if op.kind < c20OpDeliver {
+	if op.kind < c20OpDeliver || op.kind == c20OpResave {
 		w.srcOps = append(w.srcOps, byte(op.index))
 	}
 	switch op.kind {
@@ -590,6 +631,27 @@ func (w *c20World) apply(op c20Op) (conflict bool) {
 			e.heavy = !e.heavy
 		}
 		w.commit(e, func(v int64) tlmetadata.Event { return c20NamespaceEvent(e, v) })
+	case c20OpResave:
+		// the same entity, byte-identical name/data/namespace: the metadata engine gives it a new version and update time
+		switch op.a {
+		case 0:
+			i := op.b
+			e := &w.metrics[i]
+			conflict = w.replicaHolds(format.MetricEvent, int64(i+1))
+			e.late = !e.late
+			w.commit(e, func(v int64) tlmetadata.Event { return c20MetricEvent(int32(i+1), e, v) })
+		case 1:
+			i := op.b
+			e := &w.groups[i]
+			conflict = w.replicaHolds(format.MetricsGroupEvent, int64(i+1))
+			e.late = !e.late
+			w.commit(e, func(v int64) tlmetadata.Event { return c20GroupEvent(int32(i+1), e, v) })
+		default:
+			e := &w.ns
+			conflict = w.replicaHolds(format.NamespaceEvent, c20NsID)
+			e.late = !e.late
+			w.commit(e, func(v int64) tlmetadata.Event { return c20NamespaceEvent(e, v) })
+		}
 	case c20OpDeliver:
 		to, from := w.cmp, w.src
 		if op.a == 1 {
@@ -702,8 +764,9 @@ func c20Key(w *c20World) string {
 	var b strings.Builder
 	fmt.Fprintf(&b, "S%d;", rank(w.ver))
 	for _, e := range ents {
-		// e.e.invis is deliberately absent, see the comment above
-		fmt.Fprintf(&b, "%d/%d:%s,%v,%v,%v,%d;", e.typ, e.id, e.e.name, e.e.vis, e.e.disabled, e.e.heavy, rank(e.e.ver))
+		// e.e.invis is deliberately absent, see the comment above; so is e.e.late of a metric (it only decides the update
+		// time of the metric's next source event, which compaction clears); of a group / namespace it is kept downstream
+		fmt.Fprintf(&b, "%d/%d:%s,%v,%v,%v,%v,%d;", e.typ, e.id, e.e.name, e.e.vis, e.e.disabled, e.e.heavy, e.e.late && e.typ != format.MetricEvent, rank(e.e.ver))
 	}
 	for _, j := range []*JournalFast{w.cmp, w.agt} {
 		fmt.Fprintf(&b, "|J%d,%d,%s;", rank(j.currentVersion), rank(j.loaderVersion), j.stateHashStr)
@@ -775,7 +838,7 @@ func c20Key(w *c20World) string {
 		sort.Ints(gids)
 		for _, id := range gids {
 			g := ms.groupsByID[int32(id)]
-			fmt.Fprintf(&b, "%d:%q,%v,%v,%d,%d%s;", id, g.Name, g.Disable, g.Weight, g.NamespaceID, rank(g.Version),
+			fmt.Fprintf(&b, "%d:%q,%v,%v,%d,%d,%d%s;", id, g.Name, g.Disable, g.Weight, g.NamespaceID, g.UpdateTime, rank(g.Version),
 				c20HistSummary(w, journalEventID{typ: format.MetricsGroupEvent, id: int64(id)}, g.Version))
 		}
 		b.WriteString("|gn")
@@ -817,7 +880,7 @@ func c20Key(w *c20World) string {
 		sort.Ints(nids)
 		for _, id := range nids {
 			n := ms.namespaceByID[int32(id)]
-			fmt.Fprintf(&b, "%d:%q,%v,%d%s;", id, n.Name, n.Weight, rank(n.Version),
+			fmt.Fprintf(&b, "%d:%q,%v,%d,%d%s;", id, n.Name, n.Weight, n.UpdateTime, rank(n.Version),
 				c20HistSummary(w, journalEventID{typ: format.NamespaceEvent, id: int64(id)}, n.Version))
 		}
 		b.WriteString("|sn")
@@ -940,7 +1003,8 @@ func c20SameEntries(a, b *JournalFast) string {
 		}
 		x, y := e1.Event, e2.Event
 		x.Metadata, y.Metadata = "", "" // not serialized when its field-mask bit is clear (never set here)
-		if !equalWithoutVersionJournalEvent(x, y) {
+		x.Version, y.Version = 0, 0     // every other field counts, update time included (the harness's own comparison, not the code's)
+		if x != y {
 			return fmt.Sprintf("entry %s differs: %+v vs %+v", id.key(), e1.Event, e2.Event)
 		}
 	}
@@ -1075,6 +1139,10 @@ func c20Judge(w *c20World, memo *c20Memo) []c20Finding {
 					add("replica-stale-entity", "%s GetGroup(%d) = {%q disable %v weight %v}, source's latest is {%q disable %v weight %v}",
 						r.name, e.id, g.Name, g.Disable, g.Weight, e.e.name, e.e.disabled, wantW)
 				}
+				if g.UpdateTime != e.e.updateTime(false) || ev.UpdateTime != e.e.updateTime(false) {
+					add("replica-stale-update-time", "%s holds group %d with update time %d (journal) / %d (GetGroup), the source's latest save of it has %d: the compact form of a group keeps the update time",
+						r.name, e.id, ev.UpdateTime, g.UpdateTime, e.e.updateTime(false))
+				}
 				if !e.e.acceptable(g.Version) {
 					add("replica-version-not-latest", "%s GetGroup(%d).Version = %d, latest is %d", r.name, e.id, g.Version, e.e.ver)
 				}
@@ -1090,6 +1158,10 @@ func c20Judge(w *c20World, memo *c20Memo) []c20Finding {
 				}
 				if n.Name != e.e.name || n.Weight != wantW {
 					add("replica-stale-entity", "%s GetNamespace(%d) = {%q weight %v}, source's latest is {%q weight %v}", r.name, e.id, n.Name, n.Weight, e.e.name, wantW)
+				}
+				if n.UpdateTime != e.e.updateTime(false) || ev.UpdateTime != e.e.updateTime(false) {
+					add("replica-stale-update-time", "%s holds namespace %d with update time %d (journal) / %d (GetNamespace), the source's latest save of it has %d: the compact form of a namespace keeps the update time",
+						r.name, e.id, ev.UpdateTime, n.UpdateTime, e.e.updateTime(false))
 				}
 				if !e.e.acceptable(n.Version) {
 					add("replica-version-not-latest", "%s GetNamespace(%d).Version = %d, latest is %d", r.name, e.id, n.Version, e.e.ver)
@@ -1380,7 +1452,7 @@ func TestVerifC20(t *testing.T) {
 		fmt.Sscan(s, &depth)
 	}
 	rep.Bounds["max_history_length"] = depth
-	rep.Bounds["operations"] = len(c20Ops)
+	rep.Bounds["operations"] = fmt.Sprintf("%d (6 of them, the unchanged re-saves, only in the re-save family)", len(c20Ops))
 	rep.Bounds["metrics"] = c20MaxMetrics
 	rep.Bounds["groups"] = c20MaxGroups
 	rep.Bounds["namespaces"] = 1
@@ -1484,7 +1556,46 @@ func TestVerifC20(t *testing.T) {
 	rstats := mc.BFS(run, mc.BFSOptions{NumOps: len(c20Ops), MaxDepth: renameDepth})
 	rstats.Samples = nil
 	rep.MergeBFS("rename_family_histories", rstats)
+	// Re-save family: an entity is saved again with byte-identical content, so that only its version and update time
+	// move ("save" pressed without changes). A compact journal drops an incoming event that equals the stored one
+	// (equalWithoutVersionJournalEvent in applyUpdate); whether "equals" there agrees with what the state hash covers and
+	// with what the compact form keeps (the update time of groups and namespaces, not of metrics) shows only when one
+	// replica meets the re-save while holding the earlier save and another one first sees the entity afterwards - the
+	// oracle's brand-new replicas are the latter. Sub-alphabet: create metric (2 names) / create group (2 names) / toggle group /
+	// namespace create-or-edit (content changes between re-saves) / re-save of every metric, group and the namespace /
+	// deliver / save+reload intact or emptied (a replica that lost its file learns everything anew). Same BFS, same oracle.
+	allowed = 0
+	for i, op := range c20Ops {
+		switch op.kind {
+		case c20OpToggleGroup, c20OpNamespace, c20OpResave, c20OpDeliver:
+			allowed |= 1 << uint(i)
+		case c20OpCreateMetric, c20OpCreateGroup:
+			if op.a < 2 { // names a1, ab1 / a, ab: which name an entity has plays no part in a re-save
+				allowed |= 1 << uint(i)
+			}
+		case c20OpReload:
+			if op.b == c20CutIntact || op.b == c20CutEmpty {
+				allowed |= 1 << uint(i)
+			}
+		}
+	}
+	resaveDepth := mc.Pick(5, 8)
+	if s := os.Getenv("VERIF_C20_RESAVE_DEPTH"); s != "" {
+		fmt.Sscan(s, &resaveDepth)
+	}
+	rep.Bounds["resave_family_max_history_length"] = resaveDepth
+	sstats := mc.BFS(run, mc.BFSOptions{NumOps: len(c20Ops), MaxDepth: resaveDepth})
+	sstats.Samples = nil
+	rep.MergeBFS("resave_family_histories", sstats)
+	t.Logf("C20 resave family: depth %d states=%d transitions=%d per-level=%v nontrivial=%d caps=%v", resaveDepth, sstats.States, sstats.Transitions, sstats.PerLevel, sstats.Nontrivial, sstats.Caps)
+
+	// the full alphabet, without the re-save operations (they have their own family above)
 	allowed = ^uint64(0)
+	for i, op := range c20Ops {
+		if op.kind == c20OpResave {
+			allowed &^= 1 << uint(i)
+		}
+	}
 
 	stats := mc.BFS(run, mc.BFSOptions{NumOps: len(c20Ops), MaxDepth: depth})
 	stats.Samples = nil // the engine's samples are the first arrivals (order of goroutines); fixed ones are added below
